@@ -33,6 +33,15 @@ CLAIMS['C10'] = dict(
          'is not yet covered: only the evaluation half of the property is decided.',
     technique=TECH_A, design='3 (C10)')
 
+CLAIMS['C02'] = dict(
+    text='Inductive one-step obligations over the real LocateAliveExecutor, remove_if_alive, exclusive_scan_counts, ProcessSecondariesExecutor and '
+         'InitTracksExecutor from an ARBITRARY symbolic state (N=2 quick / 3 thorough slots, 2 secondaries per slot, K=2N initializers, 2 events): '
+         'vacancies/counts are exact; every valid secondary becomes exactly one in-place track or one initializer at its scan position with '
+         'consecutive event-unique ids and the right parent; one init thread fills exactly one vacant slot; nothing else is written.',
+    note='Composition over slots/steps (disjoint scan ranges => no slot holds two tracks) is argued, not solver-checked; TrackOrder::none only; geometry '
+         'point location cut to a contract stub; host glue (step_impl) sequencing mirrored by hand; termination of the event loop is outside.',
+    technique=TECH_B + ' (bit-vector + IEEE mode, path-wise with cone-of-influence slicing)', design='3 (C02)')
+
 NOT_APPLICABLE = {
     'C07': 'quantifies over interleavings of host threads driving whole Steppers over shared_ptr/std::vector/OpenMP state: no installed engine '
            'models concurrent libstdc++ (CBMC C++ front end cannot parse it; own IR executors are single-threaded). See DESIGN.md C07.',
